@@ -134,6 +134,11 @@ def _dict_of(fn, name):
     return None
 
 
+def resolve_locals_(fn, e):
+    from .common import resolve_locals
+    return resolve_locals(fn, e, pure_only=False)
+
+
 def ops(ctx):
     repo = ctx.repo
     r = ctx.rule('C04-OPS', 'operator tables agree with the grammar\'s operators and with Python\'s operations', floor=25,
@@ -168,6 +173,12 @@ def ops(ctx):
             continue
         kind, op = BIN_SPEC[key]
         ok = False
+        OPERATOR_FN = {'add': 'Add', 'sub': 'Sub', 'mul': 'Mult', 'truediv': 'Div', 'mod': 'Mod', 'lt': 'Lt', 'le': 'LtE', 'gt': 'Gt', 'ge': 'GtE',
+                       'ne': 'NotEq', 'eq': 'Eq'}
+        if isinstance(lam, ast.Attribute) and isinstance(lam.value, ast.Name) and lam.value.id == 'operator' and \
+                'operator' not in {n.id for n in ast.walk(fn) if isinstance(n, ast.Name) and isinstance(n.ctx, ast.Store)}:
+            # operator.add(a, b) is a + b: the stdlib function of the operation, operands in call order
+            ok = kind in ('BinOp', 'Compare') and OPERATOR_FN.get(lam.attr) == op
         if isinstance(lam, ast.Lambda) and len(lam.args.args) == 2:
             a, b = [x.arg for x in lam.args.args]
             body = lam.body
@@ -181,18 +192,17 @@ def ops(ctx):
                 msg="ops[%r] is `%s`; the operator %s must compute `<left> %s <right>` with the operands in source order"
                     % (key, src(lam), key, key))
     # operand provenance and lookup
-    lv = rv = opv = None
-    for st in body_without_doc(fn):
-        m = pm.match('_V = self.accept(node.left).fget()', st)
-        if m:
-            lv = m['_V'].id
-        m = pm.match('_V = self.accept(node.right).fget()', st)
-        if m:
-            rv = m['_V'].id
-        m = pm.match('_V = node.operator._N()', st)
-        if m and m['_N'] in ('lower',):
-            opv = m['_V'].id
-    ok = lv and rv and opv and pm.contains('ops[%s](%s, %s)' % (opv, lv, rv), fn)
+    # value flow on the normal form: the table is indexed by the lower-cased operator and applied to (left value, right value)
+    nf_ = repo.nfunc(Q)
+    ok = False
+    for c_ in ast.walk(nf_):
+        if isinstance(c_, ast.Call) and isinstance(c_.func, ast.Subscript) and len(c_.args) == 2 and not c_.keywords:
+            tbl_ = resolve_locals_(nf_, c_.func.value)
+            key_ = resolve_locals_(nf_, c_.func.slice)
+            a0_, a1_ = resolve_locals_(nf_, c_.args[0]), resolve_locals_(nf_, c_.args[1])
+            if isinstance(tbl_, ast.Dict) and pm.match('node.operator.lower()', key_) is not None and \
+                    pm.match('self.accept(node.left).fget()', a0_) is not None and pm.match('self.accept(node.right).fget()', a1_) is not None:
+                ok = True
     r.check(bool(ok), 'the operation is looked up by the lower-cased operator and applied to (value of node.left, value of node.right)',
             fn, construct=Q, key='apply', msg='accept_BinaryOperationNode does not apply ops[<operator.lower()>](<left value>, <right value>)')
     # unary
@@ -303,35 +313,38 @@ def control(ctx):
         r.check(sites and all(q == 'ActionWalker.accept_BodyNode' for q, _, _ in sites), '%s is caught only by accept_BodyNode' % exc,
                 sites[0][1] if sites else repo.cls(AW), construct=AW + '.accept_BodyNode', key='catch ' + exc,
                 msg='%s is caught by %s; only the body evaluator may end the action' % (exc, [q for q, _, _ in sites] or 'nobody'))
-    # loops: every handler that evaluates node.block inside a Python loop maps continue/break
+    # loops: abstract execution of the two loop evaluators over all outcomes of two iterations of the body (normal / continue /
+    # break): a continue goes on with the next iteration, a break ends the loop, nothing escapes the evaluator
+    import itertools as _it
     n_loops = 0
-    for name, fn in nodes.handlers_of(repo, AW).items():
-        for lp in [n for n in walk_local(fn) if isinstance(n, (ast.For, ast.While))]:
-            if not any(pm.match('self.accept(node.block)', c) is not None for c in ast.walk(lp) if isinstance(c, ast.Call)):
-                continue
-            n_loops += 1
-            Q = AW + '.accept_' + name
-            tries = [t for t in lp.body if isinstance(t, ast.Try)]
-            ok = False
-            for t in tries:
-                if not any(pm.match('self.accept(node.block)', st) is not None for st in t.body):
-                    continue
-                mapping = {}
-                for h in t.handlers:
-                    nm = (dotted(h.type) or '').split('.')[-1] if h.type is not None else '<bare>'
-                    if len(h.body) == 1:
-                        mapping[nm] = type(h.body[0]).__name__
-                ok = mapping.get('ContinueException') == 'Continue' and mapping.get('BreakException') == 'Break' \
-                    and set(mapping) == {'ContinueException', 'BreakException'}
-                if not ok:
-                    r.violation('%s maps loop-control exceptions as %s; required: ContinueException -> continue, '
-                                'BreakException -> break' % (Q, mapping), t, construct=Q, key='loop-mapping')
-            if not tries:
-                r.violation('%s evaluates the loop body without catching Break/ContinueException' % Q, lp, construct=Q, key='loop-no-try')
-            elif ok:
-                r.ok('%s maps ContinueException -> continue, BreakException -> break' % Q, lp, construct=Q)
-    if n_loops < 2:
-        raise AnalysisError('only %d loop evaluators found' % n_loops)
+    for name in ('WhileNode', 'ForEachNode'):
+        fn = repo.func(AW + '.accept_' + name)
+        Q = AW + '.accept_' + name
+        n_loops += 1
+
+        def body(e, s, tr):
+            k = s['n']
+            s['n'] = k + 1
+            tr.append(('body', k))
+            o = s['outcomes'][k] if k < len(s['outcomes']) else 'ok'
+            if o == 'break':
+                raise absint.Raised('BreakException')
+            if o == 'continue':
+                raise absint.Raised('ContinueException')
+            return True
+        it_ = absint.Interp(fn, [('self.accept(node.expression).fget()', lambda e, s, tr: s['n'] < 2)],
+                            [('self.accept(node.block)', body), ('self.symtab.install_symbol(_N, _V)', lambda e, s, tr: True)],
+                            iters=[('self.symtab.find_symbol(node.set_variable_name)',
+                                    lambda e, s, tr: [absint.Sym(ast.Name(id='E1', ctx=ast.Load())), absint.Sym(ast.Name(id='E2', ctx=ast.Load()))])])
+        it_.pure_calls = {'find_symbol'}
+        for outcomes in _it.product(['ok', 'continue', 'break'], repeat=2):
+            out_, tr_ = it_.run({'n': 0, 'outcomes': list(outcomes)})
+            bodies = [t[1] for t in tr_ if isinstance(t, tuple) and t[0] == 'body']
+            want = [0] if outcomes[0] == 'break' else [0, 1]
+            r.check(out_.kind != 'raise' and bodies == want, '%s: body outcomes %s -> iterations %s' % (name, list(outcomes), want), fn, construct=Q,
+                    key='loop-mapping %s' % (outcomes,),
+                    msg='%s with body outcomes %s runs the iterations %s and ends with %r; expected %s and a normal end (ContinueException -> next '
+                        'iteration, BreakException -> leave the loop)' % (Q, list(outcomes), bodies, out_, want))
     # while re-evaluates its condition, for-each rebinds the loop variable
     wf = repo.func(AW + '.accept_WhileNode')
     r.check(any(isinstance(n, ast.While) and pm.match('self.accept(node.expression).fget()', n.test) is not None for n in ast.walk(wf)),
